@@ -131,7 +131,7 @@ Proof.
   pose proof (mbap_nf_ref (nf_fuel n) st b n fi (S (length (b_pend b ++ sbytes n))) Hwf Hst ltac:(unfold nf_fuel; lia) ltac:(lia)) as H.
   unfold rd in H. rewrite E in H. unfold nf_post in H. cbv zeta in H. destruct res as [f|e].
   - destruct H as (b' & -> & _ & _ & _ & _ & _ & _ & Hc). exact Hc.
-  - destruct e; try exact I. destruct H as (_ & b' & -> & _ & _ & _ & _ & Hc). exact Hc.
+  - destruct e; try exact I. destruct H as (_ & b' & -> & _ & _ & _ & _ & Hc & _). exact Hc.
 Qed.
 
 Corollary tcp_no_loss' : forall st b n fi r' n' res, wf b -> st_ok st ->
